@@ -109,6 +109,9 @@ class Prop(common.PropertyCheck):
                     vals = [[2 * rng.randrange(0, 32) + (1 - vi), rng.randrange(0, 64) | (1 << (len(spec['names']) - 1))] for _ in ops]
                     for how in DUPS:
                         yield {'k': 'dup', 'spec': spec, 'ops': ops, 'vals': vals, 'how': how}
+        # files holding more than 1 MiB of events that differ in one byte of one event: near the end, in the middle, at the very beginning
+        for i, frac in enumerate([1.0, 0.999, 0.75, 0.5, 0.0, 0.97][:self.budget(4, 6)]):
+            yield {'k': 'fileeq', 'flip': 'event', 'big': {'n': [45000, 70001][i % 2], 'D': [8, 6][i % 2], 'dt': ['F', 'I'][i % 2], 'seed': 9100 + i}, 'pos_frac': frac}
         for _ in range(self.budget(30, 300)):
             sp = fcsgen.gen_spec(rng, max_events=6, max_par=3)
             if sp['datatype'] == 'I':
@@ -210,7 +213,16 @@ class Prop(common.PropertyCheck):
         except Exception as ex:
             return {'err': type(ex).__name__ + ':' + str(ex)[:100]}
 
+    def big_spec(self, big):
+        # more than 1 MiB of events (block-wise comparisons): N events x D parameters of 32 bits, every byte non-zero
+        raw = np.random.RandomState(big['seed'] % (1 << 31)).randint(1, 120, size=(big['n'], 4 * big['D'])).astype(np.uint8)
+        return {'version': 'FCS3.0', 'delim': '/', 'datatype': big['dt'], 'byteord': '1,2,3,4', 'widths': [32] * big['D'], 'ranges': [1 << 32] * big['D'],
+                'events': [], 'tot': big['n'], 'raw_data': raw.tobytes().decode(fcswriter.ENC), 'placement': 'header', 'text_offsets_too': True}
+
     def run_fileeq(self, case):
+        if case.get('big'):
+            case = dict(case, spec=self.big_spec(case['big']))
+            case['pos'] = int(case['pos_frac'] * (case['big']['n'] * 4 * case['big']['D'] - 1))
         data, layout = fcswriter.build(case['spec'])
         path = fcsgen.write_tmp(data, name='eq_%d.fcs' % self.evaluations)
         try:
@@ -326,7 +338,7 @@ class Prop(common.PropertyCheck):
 
     def nontrivial_key(self, case, impl):
         if case['k'] == 'fileeq':
-            return ('fileeq', case['flip'], case['spec']['datatype'], 'diff_eq' in impl)
+            return ('fileeq', case['flip'], (case.get('spec') or {'datatype': 'big' + case.get('big', {}).get('dt', '')})['datatype'], case.get('pos_frac'), 'diff_eq' in impl)
         if impl.get('skip') or 'err' in impl or not impl.get('changed_from_fresh'):
             return None
         return (tuple(case['ops']), case['how'], tuple(impl['changed_from_fresh']))
